@@ -98,6 +98,8 @@ class AsyncBrkWorld:
             r = await Suspend("op")
             if r == "ok":
                 return ("val", task.ops)
+            if r == "timeout":
+                raise TimeoutError("upstream timeout")
             raise OpError(r)
         return op
 
@@ -219,6 +221,19 @@ class AsyncBrkWorld:
                 del ops_before
                 return
             self.tasks.pop(ev[1])
+            # what the statement requires this ending to be recorded as
+            if k == "cancel":
+                want_kind = "cancel"
+            elif t.result[0] == "ret" and (not hasattr(t.result[1], "ok") or t.result[1].ok):
+                want_kind = "success"
+            else:
+                want_kind = "failure"
+            got_kinds = [r[0] for r in records]
+            if got_kinds and got_kinds != [want_kind]:
+                self.diverged = ("c07.settlement-kind",
+                                 f"task {t.kind} ended {t.result!r} ({'cancelled' if k == 'cancel' else ev[2]}): "
+                                 f"breaker was told {records}, must be told {want_kind}")
+                return
             self.last_stale_half = any(
                 s.mode == HALF and s.probe != t.cids.get(c) for c, s in self.specs.items())
             for r in records:
@@ -301,7 +316,8 @@ def bfs_async(cfg, depth, max_out, kinds, seed=0):
         elif "abort0" in kinds:
             events.append(("start", "abort0"))
         for i in range(n_out):
-            events += [("resume", i, "ok"), ("resume", i, "x:T"), ("cancel", i)]
+            events += [("resume", i, "ok"), ("resume", i, "x:T"), ("resume", i, "timeout"),
+                       ("cancel", i)]
         for ev in events:
             h2 = hist + (ev,)
             w = replay(cfg, h2)
